@@ -367,8 +367,27 @@ def plain_guards(prog, chk):
         h = prog.hir.get(body.id)
         if not h or "body" not in h:
             continue
+        # `let used = tb.has_class(..); if used {..}` is the same bare test
+        bound = set()
+        for node in hirq.walk(h["body"]):
+            if node.get("k") == "Let" and isinstance(node.get("init"), dict) and node["init"].get("k") == "MethodCall" and node["init"]["name"] == "has_class" and isinstance(node.get("pat"), dict) and node["pat"].get("p") == "bind":
+                bound.add(node["pat"]["name"])
+        mixed = {}
+        for node in hirq.walk(h["body"]):
+            if node.get("k") == "Let" and isinstance(node.get("init"), dict) and isinstance(node.get("pat"), dict) and node["pat"].get("p") == "bind" and node["pat"]["name"] not in bound:
+                hc = [m for m in hirq.exprs(node["init"], "MethodCall") if m["name"] == "has_class"]
+                if hc:
+                    mixed[node["pat"]["name"]] = hc[0]
         for iff in hirq.exprs(h["body"], "If"):
             c = iff["cond"]
+            if c.get("k") == "Path" and (c.get("res") or {}).get("local") in bound:
+                n_plain += 1
+                continue
+            for pth in hirq.exprs(c, "Path"):
+                nm = (pth.get("res") or {}).get("local")
+                if nm in mixed and [n for n in hirq.exprs(iff["then"], "MethodCall") if n["name"] in ("add_style", "add_defs")]:
+                    key = hirq.render_string_expr(mixed[nm]["args"][0]) if mixed[nm]["args"] else "?"
+                    chk.bad("A16.plain-guard", f"{body.short}:{key}", body.where(line=c.get("line")), f"{body.short}: the rule/definition for class `{key}` is emitted under a condition that combines has_class({key}) with something else (through the local `{nm}`): it no longer appears exactly when the class is used")
             uses = [m for m in hirq.exprs(c, "MethodCall") if m["name"] == "has_class"]
             if not uses:
                 continue
